@@ -14,8 +14,11 @@ func FindVertexHasLabelStart(pipe []*gripql.GraphStatement) ([]string, []*gripql
 			break
 		}
 		if i == 0 {
-			if _, ok := step.GetStatement().(*gripql.GraphStatement_V); ok {
-				//lookupV = lv
+			if v, ok := step.GetStatement().(*gripql.GraphStatement_V); ok {
+				if len(protoutil.AsStringList(v.V)) > 0 {
+					// V(ids): a label scan would ignore the ids
+					break
+				}
 			} else {
 				break
 			}
@@ -23,8 +26,13 @@ func FindVertexHasLabelStart(pipe []*gripql.GraphStatement) ([]string, []*gripql
 		}
 		switch s := step.GetStatement().(type) {
 		case *gripql.GraphStatement_HasLabel:
-			labels = protoutil.AsStringList(s.HasLabel)
-			hasLabelLen = i + 1
+			if hasLabelLen > 0 {
+				// only the first hasLabel becomes the scan, later ones stay filters
+				isDone = true
+			} else {
+				labels = protoutil.AsStringList(s.HasLabel)
+				hasLabelLen = i + 1
+			}
 		default:
 			isDone = true
 		}
@@ -41,7 +49,11 @@ func FindEdgeHasLabelStart(pipe []*gripql.GraphStatement) ([]string, []*gripql.G
 			break
 		}
 		if i == 0 {
-			if _, ok := step.GetStatement().(*gripql.GraphStatement_E); ok {
+			if e, ok := step.GetStatement().(*gripql.GraphStatement_E); ok {
+				if len(protoutil.AsStringList(e.E)) > 0 {
+					// E(ids): a label scan would ignore the ids
+					break
+				}
 			} else {
 				break
 			}
@@ -49,8 +61,13 @@ func FindEdgeHasLabelStart(pipe []*gripql.GraphStatement) ([]string, []*gripql.G
 		}
 		switch s := step.GetStatement().(type) {
 		case *gripql.GraphStatement_HasLabel:
-			labels = protoutil.AsStringList(s.HasLabel)
-			hasLabelLen = i + 1
+			if hasLabelLen > 0 {
+				// only the first hasLabel becomes the scan, later ones stay filters
+				isDone = true
+			} else {
+				labels = protoutil.AsStringList(s.HasLabel)
+				hasLabelLen = i + 1
+			}
 		default:
 			isDone = true
 		}
